@@ -343,6 +343,64 @@ func (c *Ctx) viewsOfDecodeBuffer() {
 	}
 	c.R.Count("decoder stores of in-place-mutable header views", n)
 	c.R.Floor("decoder stores of in-place-mutable header views (mtypeflags, packetID)", n, 6)
+	// the other direction: whoever declares the image current (dirty = false) outside a decoder - an encoder that
+	// keeps the bytes it wrote as the image, say - must leave the in-place-mutable fields as views of that image, or
+	// the setters that rely on the views (no dirty mark) change bytes Encode no longer sends
+	nClean := 0
+	for _, fn := range c.P.Funcs {
+		if fn.Pkg == nil || fn.Pkg.Pkg.Path() != pkgMessage || fn.Blocks == nil {
+			continue
+		}
+		var clean *ssa.Store
+		viewOfImage := map[string]bool{}
+		for _, b := range fn.Blocks {
+			for _, in := range b.Instrs {
+				st, ok := in.(*ssa.Store)
+				if !ok {
+					continue
+				}
+				sp := ir.PathOf(st.Addr)
+				if len(sp.Fields) == 0 {
+					continue
+				}
+				switch f := sp.Fields[len(sp.Fields)-1]; f {
+				case "dirty":
+					if k, isK := st.Val.(*ssa.Const); isK && k.Value != nil && k.Value.ExactString() == "false" {
+						clean = st
+					}
+				case "mtypeflags", "packetID":
+					v := st.Val
+					for i := 0; i < 4; i++ {
+						sl, ok := v.(*ssa.Slice)
+						if !ok {
+							break
+						}
+						if bp := ir.PathOf(sl.X); len(bp.Fields) > 0 && bp.Fields[len(bp.Fields)-1] == "dbuf" {
+							viewOfImage[f] = true
+							break
+						}
+						v = ir.SeeThrough(sl.X)
+					}
+				}
+			}
+		}
+		if clean == nil {
+			continue
+		}
+		nClean++
+		if c.decoderLike(fn, 0) {
+			continue // judged above: the fields are views of the input, of which the image is one too
+		}
+		var missing []string
+		for _, f := range []string{"mtypeflags", "packetID"} {
+			if !viewOfImage[f] {
+				missing = append(missing, f)
+			}
+		}
+		c.R.Check(len(missing) == 0, "T3-dirty-discipline", fname(fn)+":declares-image-current-with-views", c.P.InstrPos(clean),
+			"dirty = false together with mtypeflags and packetID re-pointed into the image", fname(fn)+" declares the encoded image current (dirty = false) without making "+joinStr(missing, " and ")+" a view of that image: a setter that changes the field in place and relies on the view (SetPacketID on a message that has an identifier, SetDup / SetRetain) leaves the image - which Len and Encode now use - unchanged")
+	}
+	c.R.Count("functions declaring the image current (dirty = false)", nClean)
 }
 
 // setQoSMarksDirtyWhenIDAppears: PublishMessage.SetQoS changes the packet's length exactly when the QoS
